@@ -105,6 +105,12 @@ def gen_valid(rng, maxn):
                 fpi.insert(j, fpi[j])
         if rng.random() < 0.2:
             fpi.append(fpi[0])
+        if rng.random() < 0.25 and len(F) >= 3:
+            # both designations given, naming different sample sets: the indices are documented to win
+            # ("If set, fixed_points_in_x is set according to that points")
+            fpx = [x[f] for f in F if f in (F[0], F[-1]) or rng.random() < 0.4]
+            if len(fpx) == len(F):
+                fpx = [x[F[0]], x[F[-1]]]
     yref = rng.values(len(xref))
     alpha = rng.choice(ALPHAS_INT) if rng.random() < 0.6 else rng.choice(ALPHAS_TAB)
     if rng.random() < 0.15:
@@ -490,7 +496,7 @@ def tags(c, io, mo):
         return ["kind=longrefs", "outlier" if c["outlier"] else "ordinary"]
     if c["kind"] == "interval":
         return ["kind=interval", f"rules={c['target']}", f"alpha={c['alpha']}"]
-    mode = "indices" if c["fpi"] is not None else ("values" if c["fpx"] is not None else "default")
+    mode = "both" if (c["fpi"] is not None and c["fpx"] is not None) else "indices" if c["fpi"] is not None else ("values" if c["fpx"] is not None else "default")
     t = [f"kind={c['kind']}", f"mode={mode}", f"rules={c['target']}/{c['ref']}", f"alpha={c['alpha']}",
          f"strategy={c['strategy']}", f"n~{min(len(c['x']) // 20 * 20, 100)}"]
     if "err" in io:
